@@ -122,6 +122,10 @@ def make_keymap(klepto, spec):
         return km.picklemap(serializer='pickle', **kw)
     if kind == 'dill':
         return km.picklemap(serializer='dill', **kw)
+    if kind == 'raw-fastfloat':        # a rarely used customisation: floats and tuples count as "fast" (bare) keys too
+        return km.keymap(fasttypes=(int, str, float, type(None)), **kw)
+    if kind == 'str-sorted':           # another one: a custom `sorted` for the keyword items
+        return km.stringmap(sorted=lambda items: sorted(items, reverse=True), **kw)
     if kind == 'chain-str-sha1':       # a + b encodes with b, then passes the key through a
         return km.stringmap(**kw) + km.hashmap(algorithm='sha1', **kw)
     if kind == 'chain-md5-pickle':
@@ -168,12 +172,12 @@ class Recorder(object):
         unkey = None
         if self.safe and cfg.get('unkey'):
             eff = self.kmspec[0]
-            if eff in ('raw', 'hash'):
+            kind = cfg.get('unkey')
+            if eff in ('raw', 'hash') and kind in (True, 'type'):
                 unkey = [1]                  # unhashable: fails in the keymap or at the dict lookup
-            elif cfg.get('unkey') == 'value':
-                unkey = stubs.BadValue()     # encoding fails with ValueError
             else:
-                unkey = stubs.BadRepr()      # cannot be encoded by str/repr/pickle/named hash (TypeError)
+                # cannot be encoded by str/repr/pickle/named hash, nor hashed: TypeError, ValueError, AttributeError, ...
+                unkey = stubs.BAD_BY_KIND.get(kind, stubs.BadRepr)()
         self.variant = cfg.get('variant', 'plain')
         self.args = alphabet(cfg.get('nx', 4), self.safe, unkey, self.variant)
         self.funcs = {'plain': stubs.FUNCS, 'long': stubs.LFUNCS, 'frac': stubs.QFUNCS, 'ignore_y': stubs.GFUNCS, 'ignore_1': stubs.GFUNCS, 'tol0': stubs.HFUNCS,
@@ -618,6 +622,9 @@ class Recorder(object):
                 f.dump()
             elif name == 'dumpk':
                 f.dump(*[self._real(k) for k in o['keys']])
+            elif name == 'sync':
+                f.__cache__().sync(clear=bool(o.get('clear')))
+                ev['clear'] = bool(o.get('clear'))
             elif name == 'clear':
                 if o.get('keep'):
                     f.clear(keepstats=True)
@@ -821,6 +828,8 @@ def random_ops(rng, n, cfg, nargs, profile='mixed'):
             ops.append({'op': 'dumpk', 'keys': sorted(rng.sample([1, 2, 3], rng.randint(1, 2)))})
         elif r < 0.955 and profile == 'setarch':
             ops.append({'op': 'set_archive', 'x': rng.choice([1, 2])})
+        elif r < 0.965 and archived and profile in ('setarch', 'mixed'):
+            ops.append({'op': 'sync', 'clear': rng.random() < 0.5})
         elif r < 0.97:
             ops.append({'op': 'info'})
         else:
